@@ -437,6 +437,16 @@ func paramFields(fn *ssa.Function, v ssa.Value) []string {
 				}
 				return
 			}
+			// WHICH modulus of a key enters a computation (N, N², the prime factors) is data in its own right: a niladic
+			// accessor returning a modulus is labelled by its name on whatever object it is called
+			if cal := y.Call.StaticCallee(); cal != nil && cal.Signature.Recv() != nil && len(y.Call.Args) == 1 && cal.Pkg != nil && strings.HasPrefix(cal.Pkg.Pkg.Path(), modPath) && cal.Signature.Results().Len() == 1 {
+				if rn := namedOf(cal.Signature.Results().At(0).Type()); rn != nil && rn.Obj().Name() == "Modulus" {
+					if bs := paramFields(fn, y.Call.Args[0]); len(bs) == 1 && !strings.HasSuffix(bs[0], "()") {
+						set[bs[0]+"."+cal.Name()+"()"] = true
+						return
+					}
+				}
+			}
 			if cal := y.Call.StaticCallee(); cal != nil && cal.Signature.Recv() != nil && len(y.Call.Args) > 0 && cal.Pkg != nil && strings.HasPrefix(cal.Pkg.Pkg.Path(), modPath) {
 				// accessor-style labels (recv.SelfID(), recv.Hash(), free:Helper.PartyIDs()) only for the object the
 				// function belongs to; a method called on another parameter is labelled by that parameter
